@@ -16,6 +16,8 @@ Decided:
  P8 buffers parked in driver state leave it only after a refusable pop_used succeeded.
  P9 one access-platform field feeds every share/unshare.  P10 the transports' queue_set write the three area addresses,
     each split into its own low/high words (C10.M2/C11.W3 traces).  P11 free-list relink rules (C03.E6).
+ P12 a blocking driver loop returns Ok only after every request it shared was popped; in-flight bookkeeping is released only
+    after the pop (C20.Z8 / C20.Z7).
 Not decided: exactly once per buffer over a history (rests on the free-list invariant).
 """
 from .common import *
@@ -110,8 +112,14 @@ def run(F, R):
     finally:
         _c10.ONLY_OPS = None
     _c11.run(F, RuleProxy(R, {'W3': 'P10'}, only=_qs))
-    from .C16 import s4_custody
+    # P12: every request a blocking driver loop shared is also popped (and so unshared) before it returns success, and
+    # in-flight bookkeeping is released only after the pop (C20.Z8 / C20.Z7)
+    from .C20 import z7_release_after_pop, z8_pcm_complete
     from . import C05 as _c5
+    _roles = _c5.classify_api(_c5.queue_api(F, M))
+    z8_pcm_complete(F, R, M, _roles, rule='P12')
+    z7_release_after_pop(F, RuleProxy(R, {'Z7': 'P12'}), M, _roles)
+    from .C16 import s4_custody
     s4_custody(F, R, M, _c5.classify_api(_c5.queue_api(F, M)), rule='P7', only=('receive', 'recycle_rx_buffer'))
 
 
